@@ -34,3 +34,15 @@ claim("C14", "exploration", "metamorphic property-based testing: equivalent resp
 claim("C15", "exploration", "round-trip property-based testing of remove_atom_mapping against canonical-SMILES identity; enumeration of all corpus molecules and periodic species in 5 spellings",
       "Every closed-shell corpus molecule and periodic species in five deterministic mapped/explicit spellings plus Hypothesis spellings (drawn atom order, maps, kekule, explicit bonds/H, padding) must come back as the same molecule without maps; pipeline outputs must be map-free. One genuine defect class (hypervalent explicit-H atoms) is a listed known finding.",
       TB, "DESIGN.md 4/C15")
+claim("C08", "exploration", "exhaustive enumeration of small imbalance vectors + property-based testing of the rule matcher/imputer/constraint against an independent composition oracle",
+      "ALL imbalance vectors of 1-4 atoms (1-5 in thorough) over the databases' elements x charge -2..2 for both shipped databases, Hypothesis sums of database compounds, every database record, single_impute + RuleConstraint on generated entries and rule-based rows of real runs; completions must be database compounds with positive integer ratios summing exactly to the imbalance, and accepted completions must not add dihalogens.",
+      TB + "; match() calls over a 5 s alarm are skipped (exponential search)", "DESIGN.md 4/C08")
+claim("C17", "exploration", "metamorphic property-based testing of normalize_smiles / wc_similarity over permutations, respellings and anagram-isomer sets",
+      "Stereo-free reactions incl. reactions built from anagram isomer groups mined from the corpus: all molecule permutations (<=4 per side) and drawn respellings must normalise identically (idempotently) and score similarity exactly 1 under the three methods; random pairs must give symmetric values in [0,1].",
+      TB, "DESIGN.md 4/C17")
+claim("C19", "exploration", "model-based testing of RuleImputeManager over operation histories: exhaustive short histories, Hypothesis histories to length 30, hypothesis.stateful machine; ordered-list reference model + composition oracle",
+      "ALL histories of length <=3 (empty start; <=2 for shipped starts in quick) over a 14-compound alphabet with add / bulk-add / remove, random histories to length 30 and a RuleBasedStateMachine, each step compared with an ordered-list model and the oracle composition. Shipped duplicate records are a listed known finding (K19).",
+      TB + "; uniqueness = string identity as the manager claims", "DESIGN.md 4/C19")
+claim("C20", "exploration", "property-based testing of MoleculeStandardizer with composition / parse / idempotence oracles on enol- and hemiketal-enriched molecules",
+      "Every corpus molecule (third in quick, all in thorough), all rooted spellings of 45 hand-built enol/hemiketal/ortho-acid/enolate/metal-alkoxide seeds and Hypothesis-built molecules with several such groups and mixtures must standardise without exception to a parsable SMILES of identical composition and charge, idempotently; a sample is repeated under other PYTHONHASHSEED values (fgutils group detection depends on it).",
+      TB + "; fgutils' FGQuery is a third-party dependency whose output varies with PYTHONHASHSEED", "DESIGN.md 4/C20")
